@@ -222,7 +222,8 @@ def Obj.knotValues (o : Obj) (first last : Nat) : List Rat :=
 
 /-- `Local_Minimum(x_1,x_2)` (`isMax = false`) / `Local_Maximum` (`isMax = true`).
     The candidate knots are `i1+1 … i2`, plus knot `i1 = 0` when `x_1` lies below the domain and
-    knot `i2+1 = N-1` when `x_2` lies above it (fix ede24b1). -/
+    knot `i2+1 = N-1` when `x_2` lies above it, provided the knot lies between the limits
+    (fixes ede24b1, fb75aa9). -/
 def Obj.localExt (o : Obj) (isMax : Bool) (v1 v2 : Rat) : Except Err (Rat × Obj) := do
   if v2 < v1 then throw .diag
   let (fl, oa) ← o.interpolate v1
@@ -230,8 +231,8 @@ def Obj.localExt (o : Obj) (isMax : Bool) (v1 v2 : Rat) : Except Err (Rat × Obj
   let (i1, oc) ← ob.locate v1
   let (i2, od) ← oc.locate v2
   let pick := if isMax then rmax else rmin
-  let first := if v1 < o.x 0 then i1 else i1 + 1
-  let last := if v2 > o.x (o.N - 1) then i2 + 1 else i2
+  let first := if v1 < o.x 0 ∧ v2 ≥ o.x 0 then i1 else i1 + 1
+  let last := if v2 > o.x (o.N - 1) ∧ v1 ≤ o.x (o.N - 1) then i2 + 1 else i2
   if first > last then pure (pick fl fr, od)
   else
     let ks := o.knotValues first last
